@@ -100,6 +100,32 @@ func c04Attempt(c *core.Ctx, info *c04Info) {
 			}
 		}
 	}
+	// a function returning the balancer that gets it from a loader is a loader (LoadBalancer() →
+	// sp.balancer.load())
+	for changed := true; changed; {
+		changed = false
+		for _, file := range pkg.Syntax {
+			for _, d := range file.Decls {
+				fd, ok := d.(*ast.FuncDecl)
+				if !ok || fd.Body == nil || fd.Type.Results == nil || len(fd.Type.Results.List) != 1 {
+					continue
+				}
+				o, _ := pkg.TypesInfo.Defs[fd.Name].(*types.Func)
+				if o == nil || loaders[o] {
+					continue
+				}
+				if tv, ok := pkg.TypesInfo.Types[fd.Type.Results.List[0].Type]; !ok || !types.Identical(tv.Type, info.iface) {
+					continue
+				}
+				for _, call := range calls(fd.Body, false) {
+					if fo, _ := c04Callee(pkg.TypesInfo, call).(*types.Func); fo != nil && loaders[fo] {
+						loaders[o] = true
+						changed = true
+					}
+				}
+			}
+		}
+	}
 	// attempt units: handler-typed function literals that reach a send and are handed to Wrap
 	isSend := func(h *flow.Func, n ast.Node) bool {
 		call, ok := n.(*ast.CallExpr)
